@@ -142,3 +142,50 @@ def convert(text, root, prefix='', uri=DEFAULT_URI, parser=None):
 
 def strip_etree(r):
     return {k: v for k, v in r.items() if k != 'etree'}
+
+
+def to_dict(pre_text, root):
+    """Real grammar parse of already pre-parsed text + to_dict(): {'res': 'ok', 'dict': ...} / fail / exc."""
+    from bluebell.parser import Parser, ROOT_ALIASES
+    import bluebell.types as types
+    from bluebell.akn import FAILURE
+    root = ROOT_ALIASES.get(root, root)
+    p = Parser(pre_text, actions=None, types=types)
+    try:
+        t = getattr(p, '_read_' + root)()
+    except RecursionError:
+        return {'res': 'recursion'}
+    if t is FAILURE:
+        return {'res': 'fail'}
+    if p._offset != p._input_size:
+        return {'res': 'leftover', 'stop': p._offset}
+    if not hasattr(t, 'to_dict'):
+        return {'res': 'ok', 'kind': 'none'}
+    try:
+        return {'res': 'ok', 'kind': 'dict', 'dict': t.to_dict(), 'tree': t}
+    except Exception as ex:  # noqa
+        return {'res': 'exc', 'exc': type(ex).__name__, 'msg': str(ex)[:200]}
+
+
+def uris_for(uri=DEFAULT_URI):
+    """The FRBR URI strings the model takes as parameters (computed by cobalt)."""
+    from cobalt import FrbrUri
+    f = FrbrUri.parse(uri)
+    b = f.clone()
+    b.work_component = None
+    return {'work': f.work_uri(), 'expr': f.expression_uri(), 'manif': f.manifestation_uri(),
+            'workBase': b.work_uri(work_component=False) if _takes_wc(b) else b.work_uri(),
+            'exprBase': b.expression_uri(work_component=False) if _takes_wc(b) else b.expression_uri(),
+            'manifBase': b.manifestation_uri(work_component=False) if _takes_wc(b) else b.manifestation_uri()}
+
+
+def _takes_wc(f):
+    import inspect
+    try:
+        return 'work_component' in inspect.signature(f.work_uri).parameters
+    except Exception:
+        return False
+
+
+def model_convert_req(text, root, prefix='', uri=DEFAULT_URI):
+    return {'op': 'convert', 'text': text, 'root': root, 'prefix': prefix, 'uris': uris_for(uri)}
